@@ -226,6 +226,12 @@ impl Parser {
                     }
                 }
 
+                // a field that merely *holds* a function (`cb: fn(int) -> int`) is called like any other
+                // function value: the object is not passed along as `self`
+                if lhs_ty.disregard_distractors(true).is_class() && !function_type.is_associated_fn() {
+                    assume_self_is_on_top = false;
+                }
+
                 let arguments = Self::function_arguments(
                     arguments,
                     function_type.parameters(),
